@@ -161,13 +161,23 @@ Arguments proj {L R K D}.
                    of delete / copy / clear
      AAppendDst    is the destination (first argument) of append
      APtrCall      has a pointer-receiver method called on it or on a part
-     ARead         (recorded for `registry.table` only) is read.
+     ARead         (recorded for the non-sync fields of mutex-carrying
+                   variables only: registry.table) is read.
    a_path is the selector path from the variable to the part touched
-   ("table"), a_meth the method of an APtrCall, a_sync says that the variable's
-   declared type, or the receiver type of the method called, is declared in
-   package sync or sync/atomic, a_locked that the place lies lexically between
-   <var>.Lock() and <var>.Unlock() (or after a deferred Unlock) of the same
-   function. *)
+   ("table"), a_meth the method of an APtrCall.
+   a_sync says that this is synchronisation: the variable's declared type, or
+   the method called, is declared in package sync or sync/atomic, or the
+   method belongs to a standard-library type documented as safe for
+   concurrent use - strings.Replacer, and regexp.Regexp except Longest: an
+   assumption about the standard library, listed in harness/c16_srcfacts.go
+   and in the evidence).
+   a_locked says that the place is covered by the variable's OWN mutex:
+   lexically between <var>.Lock() and <var>.Unlock() (or after a Lock whose
+   Unlock is deferred) of the same function - a mutation needs Lock, under
+   RLock only reads count - or inside an unexported function whose value is
+   never taken and all of whose call sites in the package lie in such a
+   region or in another such function ("the caller must hold the lock";
+   greatest fixpoint, computed by the walk). *)
 
 Inductive akind := AAssign | AAddr | AFieldAssign | AAppendDst | APtrCall | ARead.
 
@@ -180,8 +190,13 @@ Definition s_decoration : bytes :=
 Definition s_registry : bytes := [114; 101; 103; 105; 115; 116; 114; 121]%N.
 Definition s_table : bytes := [116; 97; 98; 108; 101]%N.
 
-Definition is_registry_table (pkg var path : bytes) : bool :=
-  bytes_eqb pkg s_decoration && bytes_eqb var s_registry && bytes_eqb path s_table.
+(* a field (non-empty path) of a package-level variable; [locked] says the
+   access lies between Lock and Unlock of THAT variable's own mutex in the
+   same function, so this is "state guarded by the mutex it is declared
+   with" - registry.table on the current tree, and whatever a rewrite of the
+   registry chooses to keep under the same discipline *)
+Definition is_guarded_field (pkg var path : bytes) : bool :=
+  match path with [] => false | _ => true end.
 
 Definition mutating (k : akind) : bool :=
   match k with ARead => false | _ => true end.
@@ -189,8 +204,8 @@ Definition mutating (k : akind) : bool :=
 (* one fact is acceptable when
    - it is a declaration, or
    - it is synchronisation (a sync-typed variable or a sync method), or
-   - it touches registry.table under the registry's lock and does not leak
-     its address. *)
+   - it touches a field of a mutex-carrying package-level variable under that
+     variable's own lock and does not leak its address. *)
 Definition fact_ok (f : fact) : bool :=
   match f with
   | FVar _ _ _ _ => true
@@ -198,7 +213,7 @@ Definition fact_ok (f : fact) : bool :=
       match k with
       | ARead => locked
       | AAddr => sy
-      | _ => sy || (is_registry_table pkg var path && locked)
+      | _ => sy || (is_guarded_field pkg var path && locked)
       end
   end.
 
